@@ -426,7 +426,7 @@ func (f *Frame) baseEnv(b *ssa.BasicBlock, st *State) map[string]Val {
 					if lv == nil {
 						lv = fr.un.lvOfPointer(v.T, fv.Type())
 					}
-					env[fv.Name()] = Val{T: fr.un.readLV(lv, st), Go: pt.Elem()}
+					env[fv.Name()] = Val{T: fr.un.readLV(lv, st), Go: pt.Elem(), LVSelf: lv}
 				} else {
 					env[fv.Name()] = v
 				}
